@@ -57,7 +57,7 @@ def main():
                 open(p, "w").write(s)
             t0 = time.time()
             env = dict(os.environ)
-            env.setdefault("VERIF_MAX_S", "120")
+            env.setdefault("VERIF_MAX_S", "120"); env.setdefault("VERIF_SHRINK_S", "3")
             env.setdefault("VMSIM_HANG_S", "60")
             r = subprocess.run([CHECK, m["prop"], tier], capture_output=True, text=True, env=env)
             dt = time.time() - t0
